@@ -88,6 +88,46 @@ pub fn bp_gens<G: CurveTag>(cap: usize, parties: usize) -> Rc<BulletproofGens<G>
     })
 }
 
+/// generator objects obtained in different (equivalent) ways
+pub fn bp_gens_mode<G: CurveTag>(cap: usize, parties: usize, mode: u8) -> Rc<BulletproofGens<G>> {
+    use ark_serialize::{CanonicalDeserialize, CanonicalSerialize};
+    if mode % 4 == 0 {
+        return bp_gens::<G>(cap, parties);
+    }
+    GENS.with(|g| {
+        let key = (G::CURVE.index() + 10 * (mode as usize % 4), cap, parties);
+        if let Some(x) = g.borrow().get(&key) {
+            return x.clone().downcast::<BulletproofGens<G>>().unwrap();
+        }
+        let v: BulletproofGens<G> = match mode % 4 {
+            1 => {
+                let mut x = BulletproofGens::new(cap / 2, parties);
+                x.increase_capacity(cap);
+                x
+            }
+            2 => {
+                let x = BulletproofGens::<G>::new(cap, parties);
+                let mut b = vec![];
+                x.serialize_compressed(&mut b).unwrap();
+                BulletproofGens::<G>::deserialize_compressed(&b[..]).expect("generators round-trip")
+            }
+            _ => {
+                let mut x = BulletproofGens::new(0, parties);
+                let mut c = 0;
+                while c < cap {
+                    c = (c + 1 + c / 2).min(cap);
+                    x.increase_capacity(c);
+                    x.increase_capacity(c / 2); // no-op
+                }
+                x
+            }
+        };
+        let v = Rc::new(v);
+        g.borrow_mut().insert(key, v.clone() as Rc<dyn Any>);
+        v
+    })
+}
+
 pub fn pc_gens<G: CurveTag>() -> PedersenGens<G> {
     thread_local! {
         static PC: RefCell<HashMap<usize, Rc<dyn Any>>> = RefCell::new(HashMap::new());
@@ -466,7 +506,7 @@ impl<G: AffineRepr> ProveOut<G> {
 pub fn run_prover<G: CurveTag>(prog: &Program, opts: &ProveOpts<G>) -> ProveOut<G> {
     let shape = prog.shape();
     let cap = opts.cap.unwrap_or_else(|| prog.cap_p.resolve(shape.padded()));
-    let gens = bp_gens::<G>(cap, prog.party_cap as usize);
+    let gens = bp_gens_mode::<G>(cap, prog.party_cap as usize, prog.gens);
     let pc = opts.pc_gens.unwrap_or_else(|| prog_pc::<G>(prog));
     let ctx = Ctx::<G>::new(true, vec![]);
     let ctx = if opts.direct_vars {
@@ -601,7 +641,8 @@ pub fn run_verifier<G: CurveTag>(
 ) -> VerifyOut<G> {
     let shape = prog.shape();
     let cap = opts.cap.unwrap_or_else(|| prog.cap_v.resolve(shape.padded()));
-    let gens = bp_gens::<G>(cap, prog.party_cap as usize);
+    // the verifier's generator object is obtained in the next way round
+    let gens = bp_gens_mode::<G>(cap, prog.party_cap as usize, prog.gens.wrapping_add(1));
     let pc = opts.pc_gens.unwrap_or_else(|| prog_pc::<G>(prog));
     let ctx = Ctx::<G>::new(false, commitments.to_vec());
     let mut t = make_transcript(prog);
